@@ -223,6 +223,28 @@ def register(w):
     ))
     register_monkey(w)
     register_x64(w)
+    register_retrace(w)
+
+
+def register_retrace(w):
+    """What JAX caches about a function traced while the patches were active is outside the contracts' reach (the caches are
+    JAX internals).  Bounded stand-ins, never counted as proved."""
+    def custom(world, c, out):
+        import time
+        from pyvc.run import run_witness
+        t0 = time.time()
+        for oname, wn, bound in (("the_converted_callable_retraces_like_a_never_converted_twin", "C13_retrace_family",
+                                  "6 plain functions x {concrete, symbolic, double-precision, failing} conversions; make_jaxpr / jit / eval_shape on the same function object afterwards"),
+                                 ("a_jit_compiled_helper_of_the_converted_function_works_afterwards", "D36", "one program: @jax.jit inner(a) = tanh(a) + 1 called by the converted lambda")):
+            holds, detail = run_witness(wn, timeout=900)
+            d = {"oid": f"jax2onnx.user_interface:to_onnx#bounded:{oname}", "kind": "bounded", "status": "discharged" if holds else ("refuted" if holds is False else "unknown"),
+                 "backend": "enumerated", "time": time.time() - t0, "instances": 1, "trivial": 0, "bounded": bound, "note": f"eager JAX after the conversion compared with a never-converted twin; {detail}"[:500]}
+            if holds is False:
+                d.update(args={"witness": wn}, replay={"reproduced": True, "detail": detail}, formula="", model=detail)
+            out["obls"].append(d)
+        out["paths"], out["time"] = 1, time.time() - t0
+        return out
+    w.add_contract(Contract("jax2onnx.user_interface:<retrace-after-conversion>", kind="custom", custom=custom, props=["C13"], witnesses=["C13_retrace_family", "D36"]))
 
 
 # =====================================================================
@@ -453,11 +475,20 @@ def register_monkey(w):
 # the JAX 64-bit flag: _force_jax_x64, _temporary_x64
 # =====================================================================
 def register_x64(w):
-    def cell(ex):
+    """Model of the flag: one process-wide cell G (written by jax.config.update) and an optional thread-local override L
+    (entered and left by the jax.enable_x64 context manager); every read returns L when one is active, else G."""
+    def init(ex):
         if "x64" not in ex.ghost:
-            ex.ghost["x64"] = z3.Bool("x64_at_entry")
+            ex.ghost["x64"] = z3.Bool("x64_global_at_entry")
             ex.ghost["x64_0"] = ex.ghost["x64"]
-        return ex.ghost["x64"]
+        if "x64_local" not in ex.ghost:
+            ex.ghost["x64_local"] = (z3.Bool("x64_override_active_at_entry"), z3.Bool("x64_override_value_at_entry"))
+            ex.ghost["x64_local_0"] = ex.ghost["x64_local"]
+
+    def cell(ex):
+        init(ex)
+        has, val = ex.ghost["x64_local"]
+        return z3.If(has, val, ex.ghost["x64"])
 
     w.path_getters["jax.config.jax_enable_x64"] = lambda ex: VBool(cell(ex))
 
@@ -465,7 +496,7 @@ def register_x64(w):
         name = z3.simplify(args[0].term)
         if not (z3.is_string_value(name) and name.as_string() == "jax_enable_x64"):
             raise OutOfSubset("jax.config.update of another option")
-        cell(ex)
+        init(ex)
         ex.ghost["x64"] = ex.truthy(args[1])
         ex.events.append(("x64_update", ex.ghost["x64"]))
         return NONE
@@ -478,7 +509,44 @@ def register_x64(w):
 
     w.path_models["jax.config.update"] = cfg_update
     w.path_models["jax.config.read"] = cfg_read
-    w.trust("jax.config.update('jax_enable_x64', v) writes one process-wide cell that jax.config.jax_enable_x64 / jax.config.read read; it does not raise")
+    w.trust("jax.config.update('jax_enable_x64', v) writes the process-wide cell; jax.config.jax_enable_x64 / jax.config.read return the thread-local override "
+            "when a jax.enable_x64(...) context is active and the process-wide cell otherwise; jax.enable_x64(v) installs the override for its body and "
+            "reinstates the previous one on every exit; none of them raises")
+
+    def scope_value(args, kwargs, ex):
+        return ex.truthy(args[0]) if args else (ex.truthy(kwargs["new_val"]) if "new_val" in kwargs else z3.BoolVal(True))
+
+    def run_scoped(ex, v, body_thunk):
+        init(ex)
+        saved = ex.ghost["x64_local"]
+        ex.ghost["x64_local"] = (z3.BoolVal(True), v)
+        try:
+            body_thunk(NONE)
+        finally:
+            ex.ghost["x64_local"] = saved
+
+    def enable_x64_scope(ex, fn, args, kwargs, body_thunk):
+        """with jax.enable_x64(v): ..."""
+        if not (isinstance(fn, VPy) and fn.path in ("jax.enable_x64", "jax.experimental.enable_x64")):
+            return False
+        run_scoped(ex, scope_value(args, kwargs, ex), body_thunk)
+        return True
+    w.with_call_hooks.append(enable_x64_scope)
+
+    # cm = jax.enable_x64(v) ... with cm: ...   (the object is inert until entered)
+    def make_scope(ex, args, kw):
+        return VPy(obj=("x64_scope", scope_value(args, kw, ex)))
+    w.path_models["jax.enable_x64"] = make_scope
+    w.path_models["jax.experimental.enable_x64"] = make_scope
+
+    def enter_scope(ex, cm, body_thunk):
+        if isinstance(cm, VPy) and isinstance(cm.obj, tuple) and cm.obj and cm.obj[0] == "x64_scope":
+            run_scoped(ex, cm.obj[1], body_thunk)
+            return True
+        return False
+    if not hasattr(w, "with_value_hooks"):
+        w.with_value_hooks = []
+    w.with_value_hooks.append(enter_scope)
 
     def hasattr_hook(ex, v, nm):
         if isinstance(v, VPy) and v.path == "jax.config":
@@ -502,20 +570,15 @@ def register_x64(w):
         ex.assume(new == ex.ghost["x64"])
         ex.ghost["x64"] = new
         ex.assumptions_used.add("the with-body leaves the x64 flag as it found it at the yield (nested conversions are themselves restoring)")
-        extra["flag_inside"] = ex.ghost["x64"]
-        if ex.branch(z3.Bool(ex.fresh_name("body_raises"))):
-            extra["body_raised"] = True
-            raise PyRaise("AnyException")
-
-    def body_any_flag(ex, cx, value, extra):
-        extra["flag_inside"] = ex.ghost["x64"]
-        ex.ghost["x64"] = z3.Bool(ex.fresh_name("x64_after_body"))  # the body may leave the flag in any state
+        extra["flag_inside"] = cell(ex)
         if ex.branch(z3.Bool(ex.fresh_name("body_raises"))):
             extra["body_raised"] = True
             raise PyRaise("AnyException")
 
     def post_flag(c: Ctx):
-        return c.ex.ghost["x64"] == c.ex.ghost["x64_0"]
+        g = c.ex.ghost
+        (h1, v1), (h0, v0) = g["x64_local"], g["x64_local_0"]
+        return z3.And(g["x64"] == g["x64_0"], h1 == h0, z3.Implies(h0, v1 == v0))
 
     def post_inside(param):
         def f(c: Ctx):
@@ -526,7 +589,7 @@ def register_x64(w):
         return f
 
     def ginit(ex, env):
-        cell(ex)
+        init(ex)
 
     common = dict(kind="contextmanager", ghost_init=ginit, props=["C13", "C09", "C18"], witnesses=["C13_x64_flag_restored"])
     w.add_contract(Contract(
@@ -535,6 +598,6 @@ def register_x64(w):
         ensures=[("flag_as_before", post_flag), ("flag_inside_is_requested", post_inside("enable_double_precision")), ("body_exception_propagates", lambda c: z3.BoolVal(not c.extra.get("body_raised")))],
         exc_ensures=[("flag_as_before", post_flag), ("flag_inside_is_requested", post_inside("enable_double_precision"))], **common))
     w.add_contract(Contract(
-        f"{MU}:_temporary_x64", params={"enabled": Bool}, cm_body=body_any_flag,
+        f"{MU}:_temporary_x64", params={"enabled": Bool}, cm_body=body_keeps_flag,
         ensures=[("flag_as_before", post_flag), ("flag_inside_is_requested", post_inside("enabled")), ("body_exception_propagates", lambda c: z3.BoolVal(not c.extra.get("body_raised")))],
         exc_ensures=[("flag_as_before", post_flag), ("flag_inside_is_requested", post_inside("enabled"))], **common))
